@@ -537,6 +537,20 @@ def native_features():
                 if got != table:
                     failures.append(dict(key="ods-document-encoding", what="content.xml encoded as %s (trailing %r) read as %r" % (enc, tail, got),
                                          args=dict(encoding=enc, tail=tail)))
+        # a commented cell: the paragraphs of the office:annotation are not part of the cell's value; covered cells
+        # (table:covered-table-cell) take a column like any cell
+        n += 1
+        p = os.path.join(d, "annotated.ods")
+        doc = encode_document([("s", [["Miller", "x"], ["plain", "y"]])])
+        doc2 = doc.replace("<text:p>Miller</text:p>", '<office:annotation><text:p>double check</text:p><text:p>this</text:p>'
+                           '</office:annotation><text:p>Miller</text:p>')
+        write_ods(p, doc2)
+        try:
+            got = list(rowio.ods_rows(p, 1))
+        except Exception as e:  # noqa
+            got = "%s: %s" % (type(e).__name__, e)
+        if doc2 == doc or got != [["Miller", "x"], ["plain", "y"]]:
+            failures.append(dict(key="ods-annotation", what="sheet with a commented cell read as %r" % (got,), args={}))
         # the same path read again after the document changed (nothing about an earlier read may be remembered)
         p = os.path.join(d, "changing.ods")
         for version, table in enumerate(([["v1", "a"]], [["v2", "b"], ["v2", "c"]])):
